@@ -13,6 +13,9 @@ type Parser struct {
 
 	unsupported bool
 
+	// clauses holds the clause keywords an update expression has used so far
+	clauses map[TokenType]bool
+
 	prefixParseFns map[TokenType]prefixParseFn
 	infixParseFns  map[TokenType]infixParseFn
 }
@@ -388,6 +391,16 @@ func (p *Parser) parseUnsupportedExpression() Expression {
 }
 
 func (p *Parser) parseUpdateActionExpression() Expression {
+	if p.clauses == nil {
+		p.clauses = map[TokenType]bool{}
+	}
+
+	if p.clauses[p.curToken.Type] {
+		p.errors = append(p.errors, fmt.Sprintf("Syntax error; the %s section can only be used once in an update expression", p.curToken.Type))
+	}
+
+	p.clauses[p.curToken.Type] = true
+
 	expression := &UpdateExpression{
 		Token:       p.curToken,
 		Expressions: p.parseActions(p.curToken),
